@@ -27,7 +27,12 @@ PY
 }
 # event.TestTransitions is order-sensitive on the unchanged tree (BASELINE.json lists two of its
 # sub-tests as flaky and later sub-tests are skipped when one of them fails): retry
+restore() {
+  # the event package's tests rewrite their checked-in test databases: put them back
+  git -C /repo checkout -q -- event/test_dbpath 2>/dev/null; git -C /repo clean -fdq event/test_dbpath 2>/dev/null
+}
 for attempt in 1 2 3; do
-  if run_once; then exit 0; fi
+  if run_once; then restore; exit 0; fi
 done
+restore
 exit 1
